@@ -66,6 +66,28 @@ def three_val(test, val, seen=None, defs=None, depth=0):
         if any(v is True for v in vs):
             return True
         return False if all(v is False for v in vs) else None
+    # concrete values of named expressions ("@values": {"method": "AM1"}): ==, !=, in, not in against literals are evaluated, whatever the spelling
+    vals = val.get("@values") if isinstance(val, dict) else None
+    if vals and isinstance(test, ast.Compare) and len(test.ops) == 1:
+        lt, rt = norm(test.left), norm(test.comparators[0])
+        try:
+            if lt in vals:
+                a_, b_ = vals[lt], ast.literal_eval(test.comparators[0])
+            elif rt in vals and isinstance(test.ops[0], (ast.Eq, ast.NotEq)):
+                a_, b_ = vals[rt], ast.literal_eval(test.left)
+            else:
+                raise ValueError
+            op = test.ops[0]
+            if isinstance(op, ast.Eq):
+                return a_ == b_
+            if isinstance(op, ast.NotEq):
+                return a_ != b_
+            if isinstance(op, ast.In):
+                return a_ in b_
+            if isinstance(op, ast.NotIn):
+                return a_ not in b_
+        except (ValueError, SyntaxError, TypeError):
+            pass
     key, neg = leaf_key(test)
     if key in val:
         if seen is not None:
